@@ -1,6 +1,9 @@
 // Package desktop drives the real wrappers.EnsureSnapDesktopFiles (exported path) for property C27.
 //
-// Input  (VERIF_IN, NDJSON):  {"case": "...", "inst": bool, "fname": "app1", "content_b64": "..."}
+// Input  (VERIF_IN, NDJSON):  one line per CALL of EnsureSnapDesktopFiles:
+//                             {"case": "...", "files": [{"inst": bool, "fname": "app1", "content_b64": "..."}, ...]}
+//                             all files are shipped in meta/gui of the plain snap (inst=false) or of the
+//                             instance-keyed snap (inst=true); ONE call installs them all
 // Output (VERIF_OUT, NDJSON): first line {"facts": {...}} (what the real snap.Info says about paths),
 //                             then one line per case {"case", "err", "files": {installed base name -> content_b64}}
 //
@@ -40,11 +43,15 @@ apps:
     command: bin/app1
 `
 
-type inCase struct {
-	Case    string `json:"case"`
+type inFile struct {
 	Inst    bool   `json:"inst"`
 	Fname   string `json:"fname"`
 	Content string `json:"content_b64"`
+}
+
+type inCase struct {
+	Case  string   `json:"case"`
+	Files []inFile `json:"files"`
 }
 
 type outCase struct {
@@ -123,22 +130,36 @@ func (s *verifDesktopSuite) TestVerifDesktop(c *check.C) {
 		}
 		var ic inCase
 		c.Assert(json.Unmarshal(sc.Bytes(), &ic), check.IsNil)
-		info := plain
-		if ic.Inst {
-			info = keyed
+		// exactly the shipped files of this case in the two snaps
+		for _, info := range []*snap.Info{plain, keyed} {
+			old, _ := filepath.Glob(filepath.Join(info.MountDir(), "meta", "gui", "*"))
+			for _, o := range old {
+				c.Assert(os.Remove(o), check.IsNil)
+			}
 		}
-		content, err := base64.StdEncoding.DecodeString(ic.Content)
-		c.Assert(err, check.IsNil)
-		gui := filepath.Join(info.MountDir(), "meta", "gui")
-		// exactly one source desktop file per case
-		old, _ := filepath.Glob(filepath.Join(gui, "*"))
-		for _, o := range old {
-			c.Assert(os.Remove(o), check.IsNil)
+		usePlain, useKeyed := false, false
+		for _, f := range ic.Files {
+			info := plain
+			if f.Inst {
+				info, useKeyed = keyed, true
+			} else {
+				usePlain = true
+			}
+			content, err := base64.StdEncoding.DecodeString(f.Content)
+			c.Assert(err, check.IsNil)
+			c.Assert(os.WriteFile(filepath.Join(info.MountDir(), "meta", "gui", f.Fname+".desktop"), content, 0644), check.IsNil)
 		}
-		c.Assert(os.WriteFile(filepath.Join(gui, ic.Fname+".desktop"), content, 0644), check.IsNil)
+		var snaps []*snap.Info
+		if usePlain || !useKeyed {
+			snaps = append(snaps, plain)
+		}
+		if useKeyed {
+			snaps = append(snaps, keyed)
+		}
 
 		oc := outCase{Case: ic.Case, Files: map[string]string{}}
-		if err := wrappers.EnsureSnapDesktopFiles([]*snap.Info{info}); err != nil {
+		// ONE call: every shipped file is sanitized before anything is written
+		if err := wrappers.EnsureSnapDesktopFiles(snaps); err != nil {
 			oc.Err = err.Error()
 		}
 		installed, _ := filepath.Glob(filepath.Join(dirs.SnapDesktopFilesDir, "*"))
@@ -149,8 +170,9 @@ func (s *verifDesktopSuite) TestVerifDesktop(c *check.C) {
 			oc.Files[filepath.Base(p)] = base64.StdEncoding.EncodeToString(b)
 		}
 		c.Assert(enc.Encode(oc), check.IsNil)
-		// leave the installed dir empty for the next case (also for the other snap)
-		c.Assert(wrappers.RemoveSnapDesktopFiles(info), check.IsNil)
+		// leave the installed dir empty for the next case
+		c.Assert(wrappers.RemoveSnapDesktopFiles(plain), check.IsNil)
+		c.Assert(wrappers.RemoveSnapDesktopFiles(keyed), check.IsNil)
 		n++
 	}
 	c.Assert(sc.Err(), check.IsNil)
